@@ -1,7 +1,7 @@
-(* F11: the pinned code (before fix: 5295e98, [fx = false]) panics at four sites where the
+(* F11 / F11b: the pinned code ([fx = false]: before fix: 5295e98 and fix: a6f4ffc) panics where the
    property demands an error; the same inputs are errors of the current code ([fx = true]). *)
 From Coq Require Import List NArith.
-From DesVerif Require Import Ndl.Bytes Ndl.Grammar Ndl.Def Ndl.Transform Ndl.Model.
+From DesVerif Require Import Ndl.Bytes Ndl.Grammar Ndl.Def Ndl.Transform Ndl.Build Ndl.Model.
 Import ListNotations.
 Open Scope N_scope.
 
@@ -58,12 +58,24 @@ Lemma C18_pinned_generic_shadowed_by_global :
   exists d, (exists n, transform false d = Ok n) /\ transform true d = Err K_GENERIC_PASSED_AS_TYP_ARGUMENT.
 Proof. exists d_shadow. split; [eexists|]; vm_compute; reflexivity. Qed.
 
-(* building the simulation: two submodule fields of one name (own + inherited) elaborate, and the
-   instantiation then hits `assert!(self.get(path).is_none())` (des/src/net/ndl/mod.rs, raw_ndl).
+(* F11b (fix: a6f4ffc): two submodule fields of one name (own + inherited) elaborated, and the
+   instantiation then hit `assert!(self.get(path).is_none())` (des/src/net/ndl/mod.rs, raw_ndl); now
+   transform reports SymbolAlreadyDefined.
    The document: entry M0; M0: inherit M2, submodules {x: M1}; M2: submodules {x: M1}; M1: gates [p] *)
-Lemma C18_duplicate_submodule_path_panics :
-  exists input, run input = 1 :: [2; 77; 48; 0; 2; 1; 120; 0; 2; 77; 49; 1; 1; 112; 0; 0; 0; 1; 120; 0; 2; 77; 49; 1; 1; 112; 0; 0; 0; 0] ++ [5; 9; 30].
-Proof.
-  exists [1; 1; 2; 77; 48; 3; 2; 77; 48; 1; 2; 77; 50; 0; 1; 1; 120; 2; 77; 49; 0; 2; 77; 50; 0; 0; 1; 1; 120; 2; 77; 49; 0; 2; 77; 49; 0; 1; 1; 112; 0; 0; 0; 0].
-  vm_compute. reflexivity.
-Qed.
+Definition dup_doc : list N :=
+  [1; 1; 2; 77; 48; 3; 2; 77; 48; 1; 2; 77; 50; 0; 1; 1; 120; 2; 77; 49; 0; 2; 77; 50; 0; 0; 1; 1; 120; 2; 77; 49; 0; 2; 77; 49; 0; 1; 1; 112; 0; 0; 0; 0].
+Lemma C18_pinned_duplicate_submodule_path_panics :
+  exists input, run_fx false input = 1 :: [2; 77; 48; 0; 2; 1; 120; 0; 2; 77; 49; 1; 1; 112; 0; 0; 0; 1; 120; 0; 2; 77; 49; 1; 1; 112; 0; 0; 0; 0] ++ [5; 9; 30] /\
+               run input = [2; 2].
+Proof. exists dup_doc. split; vm_compute; reflexivity. Qed.
+
+(* the same for two cluster fields x[2], x[3] of one module, on the description level *)
+Definition d_dup_clusters : Def :=
+  {| d_entry := A;
+     d_modules := [plain A [({| fd_ident := nm 120; fd_kard := Cluster 2 |}, tc B []); ({| fd_ident := nm 120; fd_kard := Cluster 3 |}, tc B [])];
+                   plain B []];
+     d_links := [] |}.
+Lemma C18_pinned_duplicate_cluster_fields :
+  exists d, (exists n, transform false d = Ok n /\ Build.build (fun _ => true) n = Panic Build.P_MODULE_EXISTS) /\
+            transform true d = Err K_SYMBOL_ALREADY_DEFINED.
+Proof. exists d_dup_clusters. split; [eexists; split|]; vm_compute; reflexivity. Qed.
